@@ -61,6 +61,56 @@ TextLines(t) ==
   IN IF st.cur = <<>> THEN st.done ELSE Append(st.done, st.cur)
 
 ------------------------------------------------------------------------
+(* stage 15: enclosure (fragment_tree.rs).  The free elements, in order, are arranged into a forest by       *)
+(* bounding boxes: each one is offered to the trees built so far, the last tree first; a tree offers it to    *)
+(* its children first (deepest first) and takes it itself if its bounding box fits; a text that parses as a    *)
+(* {tag} and is taken becomes class names of the taker and disappears; anything else becomes its last child.   *)
+(* Passes are repeated over the top-level trees while their number shrinks.  Elements are the tuples of         *)
+(* PipelineOps!Strip (lattice units, scale 8).                                                                *)
+TupleBox(t) ==
+  CASE t[1] = "line" -> <<Min2(t[2], t[4]), Min2(t[3], t[5]), Max2(t[2], t[4]), Max2(t[3], t[5])>>
+    [] t[1] = "rect" -> <<t[2], t[3], t[2] + t[4], t[3] + t[5]>>
+    [] t[1] = "path" -> <<Min2(t[2], t[6]), Min2(t[3], t[7]), Max2(t[2], t[6]), Max2(t[3], t[7])>>
+    [] t[1] = "circle" -> <<t[2] - t[4], t[3] - t[4], t[2] + t[4], t[3] + t[4]>>
+    [] t[1] = "text" -> <<t[2], t[3], t[2] + CW * TextWidth(t[4]), t[3]>>
+    [] OTHER -> LET n == (Len(t) - 2) \div 2 xs == { t[2 * i] : i \in 1..n } ys == { t[2 * i + 1] : i \in 1..n } IN      \* polygon
+                <<SetMin(xs), SetMin(ys), SetMax(xs), SetMax(ys)>>
+Fits(B, o) == B[1] <= o[1] /\ B[2] <= o[2] /\ B[3] >= o[3] /\ B[4] >= o[4]
+\* the class names of a text that starts with {name,name,...} (the tag parser does not look at what follows)
+TagNames(t) ==
+  IF t[1] # "text" \/ Len(t[4]) = 0 \/ t[4][1] # 123 THEN <<>>
+  ELSE LET s == t[4]
+           RECURSIVE Names(_, _)
+           Names(i, acc) == LET e == IdentEnd(s, i) IN
+                            IF e = i THEN <<>>                                          \* no identifier here: not a tag
+                            ELSE IF Tl(s, e) = 44 THEN Names(e + 1, Append(acc, SubSeq(s, i, e - 1)))
+                            ELSE IF Tl(s, e) = 125 THEN Append(acc, SubSeq(s, i, e - 1))
+                            ELSE <<>>
+       IN Names(2, <<>>)
+EncloseAll(items) ==
+  LET n == Len(items)
+      box == [i \in 1..n |-> TupleBox(items[i])]
+      tagsOf == [i \in 1..n |-> TagNames(items[i])]
+      RECURSIVE DeepFirst(_, _, _)
+      DeepFirst(kids, node, x) ==        \* the node of the tree rooted at `node` that takes x, or 0
+        LET RECURSIVE Kid(_)
+            Kid(j) == IF j > Len(kids[node]) THEN 0
+                      ELSE LET r == DeepFirst(kids, kids[node][j], x) IN IF r # 0 THEN r ELSE Kid(j + 1)
+            viaKid == Kid(1)
+        IN IF viaKid # 0 THEN viaKid ELSE IF Fits(box[node], box[x]) THEN node ELSE 0
+      Offer(st, x) ==
+        LET RECURSIVE FromLast(_)
+            FromLast(j) == IF j = 0 THEN 0 ELSE LET r == DeepFirst(st.kids, st.top[j], x) IN IF r # 0 THEN r ELSE FromLast(j - 1)
+            c == FromLast(Len(st.top))
+        IN IF c = 0 THEN [st EXCEPT !.top = Append(@, x)]
+           ELSE IF tagsOf[x] # <<>> THEN [st EXCEPT !.cls[c] = @ \o tagsOf[x], !.gone = @ \cup {x}]
+           ELSE [st EXCEPT !.kids[c] = Append(@, x)]
+      Pass(st) == FoldLeft(Offer, [st EXCEPT !.top = <<>>], st.top)
+      RECURSIVE Passes(_)
+      Passes(st) == LET st2 == Pass(st) IN IF Len(st2.top) < Len(st.top) THEN Passes(st2) ELSE st2
+  IN Passes([top |-> [i \in 1..n |-> i], kids |-> [i \in 1..n |-> <<>>], cls |-> [i \in 1..n |-> <<>>], gone |-> {}])
+
+------------------------------------------------------------------------
 (* stages 3, 13, 16                                                                          *)
 FullDoc(t) ==
   LET sl == SplitLegend(t)
@@ -71,5 +121,14 @@ FullDoc(t) ==
       cellset == CellSeq(blanked)
       lastx == IF cellset = <<>> THEN 0 ELSE SetMax({ cellset[i][1] + (IF WideCp(cellset[i][3]) THEN 1 ELSE 0) : i \in 1..Len(cellset) })
       lasty == IF cellset = <<>> THEN 0 ELSE SetMax({ cellset[i][2] : i \in 1..Len(cellset) })
-  IN [w |-> (lastx + 2) * CW, h |-> (lasty + 2) * CH, out |-> Output(blanked) \o quoted, rules |-> sl.rules, found |-> sl.found]
+      all == Output(blanked)
+      free == SelectSeq(all, LAMBDA tp : tp[Len(tp)] = 0) \o quoted
+      grouped == SelectSeq(all, LAMBDA tp : tp[Len(tp)] = 1)
+      enc == EncloseAll(free)
+      kept == { i \in 1..Len(free) : i \notin enc.gone }
+      keptSeq == SelectSeq([i \in 1..Len(free) |-> i], LAMBDA i : i \in kept)
+  IN [w |-> (lastx + 2) * CW, h |-> (lasty + 2) * CH,
+      out |-> [j \in 1..Len(keptSeq) |-> free[keptSeq[j]]] \o grouped,
+      tags |-> [j \in 1..Len(keptSeq) |-> enc.cls[keptSeq[j]]] \o [j \in 1..Len(grouped) |-> <<>>],
+      rules |-> sl.rules, found |-> sl.found]
 =============================================================================
